@@ -94,6 +94,12 @@ func layout(r *hx.Rng, nv int) ([]ivec, string) {
 	}
 }
 
+func zeroArea(a, b, c ivec) bool {
+	u := ivec{b[0] - a[0], b[1] - a[1], b[2] - a[2]}
+	v := ivec{c[0] - a[0], c[1] - a[1], c[2] - a[2]}
+	return u[1]*v[2]-u[2]*v[1] == 0 && u[2]*v[0]-u[0]*v[2] == 0 && u[0]*v[1]-u[1]*v[0] == 0
+}
+
 // ---- element sets ----
 
 func sizeOf(r *hx.Rng, big int) int {
@@ -109,11 +115,15 @@ func sizeOf(r *hx.Rng, big int) int {
 	case 7, 8:
 		return r.Range(25, 60)
 	default:
+		if big > 60 && r.Chance(1, 2) { // thorough: half of this stream stays moderate
+			return r.Range(61, 300)
+		}
 		return r.Range(2, big)
 	}
 }
 
 func genElements(r *hx.Rng, kind string, n int) (verts [][3]float64, idx []int, lay string, iv []ivec) {
+	degenerate := r.Chance(1, 12) // per set: zero-length segments / zero-area triangles allowed
 	switch kind {
 	case "point":
 		iv, lay = layout(r, n)
@@ -134,11 +144,20 @@ func genElements(r *hx.Rng, kind string, n int) (verts [][3]float64, idx []int, 
 			for i := range idx {
 				k := r.Intn(nv)
 				if k == prev { // a zero-length segment has no direction (NaN): a separate, rare stream
-					if !r.Chance(1, 40) {
+					if !degenerate {
 						k = (k + 1) % nv
 					}
 				}
 				idx[i], prev = k, k
+			}
+		}
+		// coincident consecutive vertices also give zero-length segments: mostly pull them apart
+		for i := 0; i+1 < len(idx); i++ {
+			if iv[idx[i]] == iv[idx[i+1]] && !degenerate {
+				v := iv[idx[i+1]]
+				v[r.Intn(3)] += hx.Pick(r, []int{-2, -1, 1, 2})
+				iv = append(iv, v)
+				idx[i+1] = len(iv) - 1
 			}
 		}
 	case "tri":
@@ -154,7 +173,7 @@ func genElements(r *hx.Rng, kind string, n int) (verts [][3]float64, idx []int, 
 				continue
 			}
 			a, b, c := r.Intn(nv), r.Intn(nv), r.Intn(nv)
-			if !r.Chance(1, 40) { // mostly three distinct vertices
+			if !degenerate { // three distinct vertices
 				for b == a {
 					b = r.Intn(nv)
 				}
@@ -163,6 +182,25 @@ func genElements(r *hx.Rng, kind string, n int) (verts [][3]float64, idx []int, 
 				}
 			}
 			idx = append(idx, a, b, c)
+		}
+		// zero-area triangles have no plane (NaN distances): keep them a rare, counted stream by
+		// moving the third corner off the line through the other two
+		for t := 0; t < n; t++ {
+			if zeroArea(iv[idx[3*t]], iv[idx[3*t+1]], iv[idx[3*t+2]]) && !degenerate {
+				if iv[idx[3*t]] == iv[idx[3*t+1]] {
+					w := iv[idx[3*t]]
+					w[r.Intn(3)] += hx.Pick(r, []int{-2, -1, 1, 2})
+					iv = append(iv, w)
+					idx[3*t+1] = len(iv) - 1
+				}
+				a, b := iv[idx[3*t]], iv[idx[3*t+1]]
+				v := ivec{a[0] + r.Range(1, 3), b[1] - r.Range(1, 3), a[2] + r.Range(-2, 2)}
+				for tries := 0; zeroArea(a, b, v) && tries < 8; tries++ {
+					v = ivec{v[0] + r.Range(-2, 2), v[1] + 1, v[2] + r.Range(-1, 1)}
+				}
+				iv = append(iv, v)
+				idx[3*t+2] = len(iv) - 1
+			}
 		}
 	case "box":
 		iv, lay = layout(r, 2*n)
